@@ -78,7 +78,14 @@ impl TDigest {
         self.min = self.min.min(value);
         self.max = self.max.max(value);
 
-        self.centroids.push(Centroid::new(value, weight));
+        // Keep the centroids ordered by mean at all times (after the last centroid that is not
+        // greater): `quantile` and `cdf` walk them in order and may be called between compressions.
+        let pos = self
+            .centroids
+            .iter()
+            .rposition(|c| c.mean <= value)
+            .map_or(0, |i| i + 1);
+        self.centroids.insert(pos, Centroid::new(value, weight));
         self.total_weight += weight;
 
         // Compress when we have too many centroids
